@@ -48,10 +48,10 @@ def run(ck):
         canon_rule(ck, prog, fname, info)
         if info["lazy"]:
             lazy_rule(ck, prog, fname, info)
-    ck.rule("REPR", "[0,2M) representation (f62): every BaseElement constructed by new/add/sub/mul/neg/double/inv/conversions stores a value in [0, 2M) "
-                    "for all inputs (interval analysis with case splits on the quotient estimate and order facts)")
+    ck.rule("REPR", "representation range (f62: [0,2M); f64: canonical [0,M)): every BaseElement constructed by new/add/sub/mul/neg/double/mul_small/inv/"
+                    "conversions stores a value in the range for all inputs (interval analysis with exact case splits and order facts; f64 assumes mont_red_*'s range)")
     from . import repr_range
-    repr_range.run_rule(ck, prog)
+    repr_range.run_rule(ck, prog, fields=("f62", "f64"))
     ck.control("an even number is not accepted as a proved prime", not numth.lucas_prime_proof(2**64 - 2**32 + 2))
 
 
